@@ -139,8 +139,10 @@ PROPS["C15"] = dict(
 )
 
 PROPS["C01"] = dict(
-    modules=["Hpbf.Props.C01", "Hpbf.Props.C01Opt", "Hpbf.Props.C01Dse", "Hpbf.Props.ChainTotal", "Hpbf.Props.C01Loop"],
-    theorems=t("Hpbf.C01Loop", "ev_congr symbEvaluate_varsIn shiftVars_value reduceConst_total reduceConst_value reduceConst_varsIn reduceConst_canon splitAlong_recompose linPart_value tripCount_runs tripCount_diverges tripInv_runs tripCount_iter tripCount_iter_none tripInv_iter analyzeLoop_sound analyzeLoop_noReturn tripFacts_of_meaning constantsAmong_good constantsAmong_sound constantsAmong_sound_iter linearAmong_spec linearAmong_sound loopMotion_cases triFold_spec loopMotion_sound loopMotion_all_sound motionFold_spec finishLoop_motion_sound pendReads_possibleReads pendingSet_spec") +
+    modules=["Hpbf.Props.C01", "Hpbf.Props.C01Opt", "Hpbf.Props.C01Dse", "Hpbf.Props.ChainTotal", "Hpbf.Props.C01Loop", "Hpbf.Props.C01Rebuild", "Hpbf.Props.C01Rounds"],
+    theorems=t("Hpbf.OptProof", "optimizeOnce_shape' optimizeOnce_shapeOk' dse_total_after_round' optimizeOnce_atMost_atLeast analSound_after_round1' round1_dse_preserves' optimize_preserves_of_steps'") +
+             t("Hpbf.OptProof", "optimizeOnce_straightline optimize_straightline_level1 optimizeOnce_preserves_level1 optimizeOnce_onceOk_level1 optimize_preserves_level1' optimize_onceOk_level1' optimize_parse_level1 tape_not_preserved") +
+             t("Hpbf.C01Loop", "ev_congr symbEvaluate_varsIn shiftVars_value reduceConst_total reduceConst_value reduceConst_varsIn reduceConst_canon splitAlong_recompose linPart_value tripCount_runs tripCount_diverges tripInv_runs tripCount_iter tripCount_iter_none tripInv_iter analyzeLoop_sound analyzeLoop_noReturn tripFacts_of_meaning constantsAmong_good constantsAmong_sound constantsAmong_sound_iter linearAmong_spec linearAmong_sound loopMotion_cases triFold_spec loopMotion_sound loopMotion_all_sound motionFold_spec finishLoop_motion_sound pendReads_possibleReads pendingSet_spec") +
              t("Hpbf.Chain", "level0_all_backends same_inplace same_ir parse_irOf") +
              t("Hpbf.C01", "C01_parse_ok_of_tree parse_forward parse_backward parse_never_interrupted parse_prefix "
                "C01_odd_step_reaches_zero canonical_odd_loop_zeroes canonical_odd_loop_zeroes_src canonical_folded_loop_zeroes") +
@@ -162,7 +164,7 @@ PROPS["C01"] = dict(
              dict(suite="levelcap", quick=400, thorough=20000, judge="const"),
              dict(suite="irecho", quick=300, thorough=5000, judge="tie")],
     corpus=["programs"], corpus_judge="program",
-    scope="HEADLINE (Props/ChainTotal, level0_all_backends): for every balanced source, width >= 1 and environment the canonical semantics, the in-place interpreter, the IR interpreter, the bytecode machine in both dispatch profiles (p = translate (parse src), total) have the SAME set of results (ending kind + event trace), and the machine code of the JIT returns the canonical result (forward; full converse in limited mode) under explicit range hypotheses. Level 0 is FULL: for every balanced program, environment and width (w >= 1) the IR produced by "
+    scope="OPTIMISATION LEVEL 1 IS PROVED (Props/C01Rebuild): for every IR block whose expressions are in normal form (parser output is), every width >= 1, every oracle of hash iteration orders and every environment, the exact optimizer model Opt.optimize b 1 returns a block with the same behaviour — forward, backward and prefix on the event trace (optimize_preserves_level1', optimize_parse_level1) — and every loop it marks `once` is entered with a non-zero condition (optimize_onceOk_level1'), which discharges the hypothesis of the bytecode/JIT chain at -O1. The proof covers the symbolic rebuild state (written/pending/reverse), Tarjan-ordered emission for every iteration order, clobbering, nested blocks with the parent chain, inlining, the wrapping if, loop analysis and loop motion; it FOUND two genuine miscompiles (F11, F12), both repaired. Towards levels 2 and 3 (Props/C01Rounds): the analysis a round records matches its output node by node, so dead store elimination never fails on it and its syntactic hypotheses hold (optimizeOnce_shapeOk', dse_total_after_round'); at_most_once/at_least_once facts hold; round 1 followed by DSE preserves behaviour given the one remaining clause ReadsFact (round1_dse_preserves'); optimize_preserves_of_steps' reduces every level to named per-step obligations. The rounds that USE the previous analysis are in progress. HEADLINE (Props/ChainTotal, level0_all_backends): for every balanced source, width >= 1 and environment the canonical semantics, the in-place interpreter, the IR interpreter, the bytecode machine in both dispatch profiles (p = translate (parse src), total) have the SAME set of results (ending kind + event trace), and the machine code of the JIT returns the canonical result (forward; full converse in limited mode) under explicit range hypotheses. Level 0 is FULL: for every balanced program, environment and width (w >= 1) the IR produced by "
           "Program::parse, run by the IR interpreter model, has exactly the canonical event sequence, terminates iff "
           "the canonical run does, and every intermediate output is a canonical prefix (parse_forward/backward/prefix); "
           "the folding of odd-step loops is justified for every width. Levels >= 1: partial, see not_proved. The "
@@ -192,8 +194,8 @@ PROPS["C01"] = dict(
           "under explicit soundness hypotheses on the state queries (compare, getConstant, getBoth) that the rebuild "
           "invariant has to supply.",
     not_proved="optimize (levels 1..3) now HAS a complete exact Lean model (Opt.lean, 986 lines, tied on ~290 000 "
-               "programs incl. every example program: 0 differences), but the behaviour preservation of its rebuild round "
-               "(symbolic state tracking, substitution, loop motion plumbing) is NOT yet a theorem (proof work in progress); "
+               "programs incl. every example program: 0 differences), and its FIRST rebuild round (level 1) is proved behaviour preserving; the rounds that consume the previous "
+               "round's analysis (levels 2, 3) are NOT yet a theorem (proof work in progress); "
                "proved are its arithmetic cores and its dead store elimination pass, whose soundness hypotheses (AnalSound, "
                "NoDupTargets) are facts about the unmodelled rebuild round and are TESTED on every run (dsefacts: the "
                "verified boolean checker C01Dse.checkSound on the real analysis of every sampled program). For levels >= 1 "
@@ -579,12 +581,13 @@ PROPS["C06"] = dict(
 )
 
 PROPS["C10"] = dict(
-    modules=["Hpbf.Props.C10"],
-    theorems=t("Hpbf.C10", "mode_irrelevant mode_irrelevant_for_outcome move_eq_of_no_growth unchecked_eq_safe "
+    modules=["Hpbf.Props.C10", "Hpbf.Props.C10Opt"],
+    theorems=t("Hpbf.OptOffs", "reach_le_iff tags_are_offsets irOffsL_eq offsets_le_reach' parse_reach_le_moves' parse_reach_le_length' optimize_reach' optimize_tags optimize_offsets optimize_irOffs optimize_keeps_bound optimizeOnce_reach deadStoreElimination_reach optimized_offsets_le_length optimized_window_le_length optimized_window_le_moves optimized_shift_le_length analyze_window_tight") +
+             t("Hpbf.C10", "mode_irrelevant mode_irrelevant_for_outcome move_eq_of_no_growth unchecked_eq_safe "
                "unchecked_region reach_of_ptrRange parse_offsets_le_moves parse_offsets_le_length"),
     streams=[],
     extra=[c10_unsafe],
-    scope="The bytecode semantics is the same in all modes (only addresses differ); if the bounds-checked run from a "
+    scope="FOR OPTIMIZED CODE TOO (Props/C10Opt): at every level and for every oracle, every tape offset of the optimized IR and hence the bytecode access window is bounded by the number of pointer moves in the source, a fortiori by the program length (optimized_window_le_length); the preserved measure is drift + |offset| (the optimizer DOES create offsets larger than any offset of its input by inlining shifted blocks: witness). The bytecode semantics is the same in all modes (only addresses differ); if the bounds-checked run from a "
           "pre-grown layout never grows, the unchecked run makes exactly the same accesses, all inside the region "
           "(unchecked_eq_safe); a static sufficient condition from the pointer excursion and the declared window "
           "(unchecked_region); at level 0 every IR offset is bounded by the number of </> characters of the source "
@@ -599,8 +602,9 @@ PROPS["C10"] = dict(
 )
 
 PROPS["C13"] = dict(
-    modules=["Hpbf.Props.C11", "Hpbf.Props.C12", "Hpbf.Props.C02EmitTotal", "Hpbf.Props.Chain", "Hpbf.Props.C01Dse", "Hpbf.Props.C03Total", "Hpbf.Props.C02AllocTotal"],
-    theorems=t("Hpbf.C02", "allocateTemps_total_of_pre totalPre_of_emit allocateTemps_total_of_emit translateE_total translateE_total_check") + t("Hpbf.C02.Alloc", "drainEnds_total liveMask_total alloc_step_total tinv_step alloc_total_defd_necessary alloc_total_defAt_necessary alloc_total_unread_necessary alloc_total_lastLt_necessary alloc_total_any_numRegs") +
+    modules=["Hpbf.Props.C11", "Hpbf.Props.C12", "Hpbf.Props.C02EmitTotal", "Hpbf.Props.Chain", "Hpbf.Props.C01Dse", "Hpbf.Props.C03Total", "Hpbf.Props.C02AllocTotal", "Hpbf.Props.C01Rounds"],
+    theorems=t("Hpbf.OptProof", "optimizeOnce_shape' optimizeOnce_shapeOk' dse_total_after_round' optimizeOnce_atMost_atLeast analSound_after_round1' round1_dse_preserves' optimize_preserves_of_steps'") +
+             t("Hpbf.C02", "allocateTemps_total_of_pre totalPre_of_emit allocateTemps_total_of_emit translateE_total translateE_total_check") + t("Hpbf.C02.Alloc", "drainEnds_total liveMask_total alloc_step_total tinv_step alloc_total_defd_necessary alloc_total_defAt_necessary alloc_total_unread_necessary alloc_total_lastLt_necessary alloc_total_any_numRegs") +
              t("Hpbf.C03", "total_selector_iff selector_total selector_total_converse translate_jitForm compile_total_modulo_fits translate_compile translate_compile_of_localOk") +
              t("Hpbf.C02", "emit_total emitOnly_total emit_total_full_holds emit_total_run emit_total_inv") +
              t("Hpbf.Chain", "translateE_phases translateE_ok_of_alloc") + t("Hpbf.C01Dse", "eliminate_total eliminate_none_iff") +
